@@ -549,6 +549,35 @@ func c11(r *Report) {
 	})
 
 	r.Guard("C11.R3", "streams that are not gRPC, and frames that are not DATA, pass through with their own arguments", func() {
+		// the gRPC mark belongs to one stream: the cell both adapters of a stream point to is
+		// allocated in the per-stream factory call, not captured from outside it
+		{
+			n := 0
+			for _, f := range w.Funcs("h2/grpc") {
+				for _, in := range instrs(f) {
+					st, ok := in.(*ssa.Store)
+					if !ok {
+						continue
+					}
+					fa, ok := st.Addr.(*ssa.FieldAddr)
+					if !ok || fieldObj(fa).Name() != "enabled" || namedOf(fa.X.Type()) != "adapter" {
+						continue
+					}
+					n++
+					perStream := true
+					for _, l := range resolveAll(st.Val) {
+						a, isA := l.(*ssa.Alloc)
+						if !isA || a.Parent() != f || !a.Heap && false {
+							perStream = false
+						}
+					}
+					r.Decide("flow", fmt.Sprintf("%s: the gRPC mark is allocated per stream (store #%d)", fnName(f), n), perStream, "the address of a variable of the per-stream factory call", "the adapters share a gRPC mark that outlives the stream (captured from the enclosing function, a field, a global): once one stream was gRPC every later stream of the factory is parsed as gRPC and plain streams are buffered for ever", st.Pos())
+				}
+			}
+			if n == 0 {
+				r.Undecided("M/h2/grpc.adapter.enabled", "UNRESOLVED: no store")
+			}
+		}
 		passthrough := func(f *ssa.Function, method string, guarded bool) {
 			key := fmt.Sprintf("%s forwards to sink.%s unchanged", fnName(f), method)
 			ok := false
@@ -824,6 +853,9 @@ func c11(r *Report) {
 	})
 
 	r.Guard("C11.R5", "a complete zero-length message is delivered without waiting for further bytes", func() {
+		// end-of-stream exactly once and after the last message also depends on the relay
+		// putting END_STREAM on the right DATA fragment
+		endStreamOnLastFragmentRule(r)
 		// at the bottom of the reassembly loop, returning on an empty buffer must be excluded for the state
 		// "prefix read, length 0": the wait-for-more return must be control dependent on a.length / a.state
 		g := G(ad)
